@@ -504,7 +504,7 @@ func sortedAfter(info *types.Info, stack []ast.Node, loop *ast.RangeStmt, obj ty
 			pp := fn.Pkg().Path()
 			if sortFuncs[pp+"."+fn.Name()] {
 				if first, ok := ast.Unparen(call.Args[0]).(*ast.Ident); ok && info.ObjectOf(first) == obj {
-					return true
+					return sortKeyInjective(info, call)
 				}
 			}
 			return false
@@ -528,4 +528,33 @@ func mentions(info *types.Info, n ast.Node, obj types.Object) bool {
 		return !found
 	})
 	return found
+}
+
+// sortKeyInjective: the sort orders by a key that cannot tie between two
+// different map entries: the elements themselves (sort.Strings/Ints of keys)
+// or, with a comparison function, a field named Offset (the unique source
+// offset of a token). Sorting by line, column or name can tie, and the
+// relative order of tied entries is again the map's.
+func sortKeyInjective(info *types.Info, call *ast.CallExpr) bool {
+	if len(call.Args) == 1 {
+		return true // sort.Strings / sort.Ints / slices.Sort of the keys themselves
+	}
+	fl, ok := ast.Unparen(call.Args[1]).(*ast.FuncLit)
+	if !ok {
+		return false
+	}
+	ok2 := false
+	ast.Inspect(fl.Body, func(n ast.Node) bool {
+		be, ok := n.(*ast.BinaryExpr)
+		if !ok || (be.Op != token.LSS && be.Op != token.GTR) {
+			return true
+		}
+		lx, okx := ast.Unparen(be.X).(*ast.SelectorExpr)
+		ly, oky := ast.Unparen(be.Y).(*ast.SelectorExpr)
+		if okx && oky && lx.Sel.Name == ly.Sel.Name && lx.Sel.Name == "Offset" {
+			ok2 = true
+		}
+		return true
+	})
+	return ok2
 }
